@@ -109,17 +109,26 @@ Fixpoint in_use (h : list event) (acc : list (string * value)) : list (string * 
   | Update t _ _ :: r => in_use r (remove String.eqb (to_lower t) acc)   (* a later message of that topic supersedes it *)
   | _ :: r => in_use r acc
   end.
+(* the part of it a start-up restores *)
+Definition in_use_restorable (before : list event) : list (string * value) :=
+  filter (fun kv => mem_str (fst kv) restorable_keys) (in_use before []).
 Definition restored_spec (before : list event) (l : list (string * value)) : Prop :=
   saved_is_current before = true ->
   (forall t o, persistent_topic t = true -> restorable_topic t = true -> last_obj t before = Some o ->
                slookup (to_lower t) l = Some o) /\
-  (forall k v, In (k, v) (in_use before []) -> slookup k l = Some v).
+  (forall k v, In (k, v) (in_use_restorable before) -> slookup k l = Some v).
 Definition restored_check (before : list event) (l : list (string * value)) : bool :=
   negb (saved_is_current before)
   || (forallb (fun t => negb (persistent_topic t && restorable_topic t)
                         || opt_str_eqb (slookup (to_lower t) l) (last_obj t before))
               (updated_tags before)
-      && forallb (fun kv => opt_str_eqb (slookup (fst kv) l) (Some (snd kv))) (in_use before [])).
+      && forallb (fun kv => opt_str_eqb (slookup (fst kv) l) (Some (snd kv))) (in_use_restorable before)).
+
+(* ... and the saved file holds it, too (this reaches the persistent topics that no start-up restores) *)
+Definition in_use_spec (before : list event) (cfg : config) : Prop :=
+  forall k v, In (k, v) (in_use before []) -> slookup k cfg = Some v.
+Definition in_use_check (before : list event) (cfg : config) : bool :=
+  forallb (fun kv => opt_str_eqb (slookup (fst kv) cfg) (Some (snd kv))) (in_use before []).
 
 (* keys the start-up of this run read from the file (cfg0) and that no persistent topic of this run maps to
    keep their value in the saved file: the latest value of a topic last published in an earlier run is the
@@ -196,6 +205,7 @@ Definition check_one (cfg0 : config) (before : list event) (e : event) (o : out)
               then completed faults trace
                    && match last reads None with
                       | Some cfg => saved_check before cfg && kept_check cfg0 before cfg
+                                    && in_use_check before cfg
                       | None => false
                       end
               else true)
